@@ -180,9 +180,34 @@ func (v *Verifier) partitions(fn *ssa.Function, c *Contract) []partition {
 		}
 		return parts
 	}
+	// "option distinct a b ...": these operands are read-only in this function (its frame clause is proved), so
+	// aliasing among them is the case of equal values and is not enumerated
+	distinct := map[string]bool{}
+	for _, n := range strings.Fields(strings.ReplaceAll(c.Options["distinct"], ",", " ")) {
+		distinct[n] = true
+	}
 	for _, k := range keys {
 		g := groups[k]
 		sps := setPartitions(len(g))
+		if len(distinct) > 0 {
+			var keep [][]int
+			for _, sp := range sps {
+				ok := true
+				seen := map[int]bool{}
+				for j, blk := range sp {
+					if distinct[fn.Params[g[j]].Name()] {
+						if seen[blk] {
+							ok = false
+						}
+						seen[blk] = true
+					}
+				}
+				if ok {
+					keep = append(keep, sp)
+				}
+			}
+			sps = keep
+		}
 		var np []partition
 		for _, base := range parts {
 			for _, sp := range sps {
@@ -316,6 +341,7 @@ func (v *Verifier) partitions(fn *ssa.Function, c *Contract) []partition {
 // ---------- verifying one function ----------
 
 func (v *Verifier) resetRun() {
+	v.moduleVars = nil
 	v.steps = 0
 	if v.maxSteps == 0 {
 		v.maxSteps = 400000
@@ -487,7 +513,7 @@ func (v *Verifier) layerKeyOf(pkg *ssa.Package, c *Contract) string {
 	f := strings.Fields(c.Layer)
 	var ks []string
 	for _, tn := range f[1:] {
-		if tn == "ring" || tn == "opaque" || tn == "bigint" {
+		if isLayerKind(tn) {
 			ks = append(ks, "|"+tn)
 			continue
 		}
@@ -515,13 +541,13 @@ func (v *Verifier) setupLayer(pkg *ssa.Package, c *Contract) {
 		return
 	}
 	f := strings.Fields(c.Layer)
-	if f[0] != "ring" && f[0] != "opaque" && f[0] != "bigint" {
+	if !isLayerKind(f[0]) {
 		unsup("unknown layer %q", c.Layer)
 	}
 	v.abstractProducts = false
 	kind := f[0]
 	for _, tn := range f {
-		if tn == "ring" || tn == "opaque" || tn == "bigint" {
+		if isLayerKind(tn) {
 			kind = tn
 			continue
 		}
@@ -531,6 +557,8 @@ func (v *Verifier) setupLayer(pkg *ssa.Package, c *Contract) {
 		}
 		if kind == "ring" {
 			v.abstract[typeKey(t)] = "ring"
+		} else if kind == "module" {
+			v.abstract[typeKey(t)] = "module"
 		} else if kind == "bigint" {
 			v.abstract[typeKey(t)] = "bigint"
 		} else {
@@ -549,6 +577,14 @@ func (v *Verifier) abstractSort(t types.Type) *Sort {
 }
 
 func (v *Verifier) isRing(t types.Type) bool { return v.abstract[typeKey(t)] == "ring" }
+
+// isModule: a type whose values are elements of an abstract abelian group written additively (a Z-module): the
+// point types of a curve at the layer where scalar multiplications are specified
+func (v *Verifier) isModule(t types.Type) bool { return v.abstract[typeKey(t)] == "module" }
+
+func isLayerKind(s string) bool {
+	return s == "ring" || s == "opaque" || s == "bigint" || s == "module"
+}
 
 func (v *Verifier) resolveType(pkg *ssa.Package, name string) types.Type {
 	if i := strings.Index(name, "."); i >= 0 {
@@ -609,6 +645,17 @@ func (v *Verifier) runPartition(pkg *ssa.Package, fn *ssa.Function, c *Contract,
 		o.Ctx = rctx
 		mine = append(mine, o)
 		script := F.Script(&Query{Name: o.Name, Hyps: o.Hyps, Goal: o.Goal, Abstract: o.Abstract, Preamble: o.Preamble}, true)
+		if len(v.moduleVars) > 0 {
+			// module layer: an alternative script without the non-linear hypotheses and the definitional facts (a
+			// sufficient condition; only an "unsat" answer of it is used)
+			lh := linearHyps(F, o.Hyps)
+			if lh == nil {
+				lh = o.Hyps
+			}
+			// div and mod by constants as uninterpreted functions: the window steps need only the instance of
+			// x div a = b*(x div ab) + (x div a) mod b that their cut states as a lemma, and the ranges of the remainders
+			script = withAlt(script, F.Script(&Query{Name: o.Name, Hyps: lh, Goal: o.Goal, Abstract: o.Abstract, Preamble: o.Preamble, NoDefs: true, AbsDiv: true}, false))
+		}
 		o.Hyps, o.Goal = nil, nil
 		o.Bytes = len(script)
 		pool.Submit(o, script)
